@@ -360,6 +360,12 @@ func (p *pool) runExplicit(name string, input []byte, backstop time.Duration) (*
 	}
 }
 
+// backstopDeaths counts workers killed by the wall-clock backstop in this run;
+// beyond maxBackstopDeaths the remaining cases are skipped.
+var backstopDeaths atomic.Int64
+
+const maxBackstopDeaths = 32
+
 // runJobs executes all specs on n workers.  A worker that dies is restarted
 // behind the case it had announced; that case is recorded as a crash.
 func (p *pool) runJobs(specs []Spec, n int, a *agg, deadline time.Time) (complete bool, err error) {
@@ -382,13 +388,20 @@ func (p *pool) runJobs(specs []Spec, n int, a *agg, deadline time.Time) (complet
 				}
 			}()
 			for sp := range jobs {
-				if !deadline.IsZero() && time.Now().After(deadline) {
+				if (!deadline.IsZero() && time.Now().After(deadline)) || backstopDeaths.Load() > maxBackstopDeaths {
+					// out of time, or the tool hangs outside the token budget on so many inputs that
+					// every further case would cost a full backstop: the hang is reported, the rest is
+					// left unexplored (exhaustive:false)
 					skipped.Add(1)
 					continue
 				}
 				next := sp.Lo
 				deaths := 0
 				for next < sp.Hi {
+					if backstopDeaths.Load() > maxBackstopDeaths {
+						skipped.Add(1)
+						break
+					}
 					if w == nil {
 						var e error
 						if w, e = p.start(id); e != nil {
@@ -423,6 +436,9 @@ func (p *pool) runJobs(specs []Spec, n int, a *agg, deadline time.Time) (complet
 									return
 								}
 								break read
+							}
+							if d != nil && d.reason == "wallclock-backstop" {
+								backstopDeaths.Add(1)
 							}
 							a.mu.Lock()
 							a.crashes = append(a.crashes, crash{spec: sp, idx: announced, d: d})
